@@ -1284,6 +1284,76 @@ theorem parse_unique (c : Cfg) (hna : NoAmb c) (toks : List Token) (t t' : Ast) 
   exact yield_injective c hna t' t h' h (hy'.trans hy.symm)
 
 
+/-! ### positions (and the value field of operator tokens) do not influence the tree -/
+
+def okPart {α} : Except PErr α → Option α
+  | .ok a => some a
+  | .error _ => none
+
+theorem stepOperand_norm (c : Cfg) (S : List Frame) (t : Token) :
+    okPart (stepOperand c S (norm t)) = okPart (stepOperand c S t) := by
+  obtain ⟨k, v, p⟩ := t
+  cases k <;> simp only [norm, stepOperand] <;> (repeat' split) <;> simp_all [okPart, errAt]
+
+theorem classify_norm (c : Cfg) (t : Token) : classify c (norm t) = classify c t := by
+  obtain ⟨k, v, p⟩ := t
+  cases k <;> simp [norm, classify]
+
+theorem close_norm (S : List Frame) (a : Ast) (t : Token) :
+    okPart (close S a (norm t)) = okPart (close S a t) := by
+  obtain ⟨k, v, p⟩ := t
+  cases k <;> simp only [norm, close] <;> (repeat' split) <;> simp_all [okPart, errAt]
+
+theorem stepAfter_norm (c : Cfg) (S : List Frame) (a : Ast) (t : Token) :
+    okPart (stepAfter c S a (norm t)) = okPart (stepAfter c S a t) := by
+  unfold stepAfter
+  rw [classify_norm]
+  split
+  · rfl
+  · exact close_norm _ _ _
+
+theorem resolveAmb_norm (c : Cfg) (st : St) (t : Token) :
+    resolveAmb c st (some (norm t)) = resolveAmb c st (some t) := by
+  obtain ⟨k, v, p⟩ := t
+  cases k <;> simp [norm, resolveAmb, startsValue, followsValue, bothPrec]
+
+theorem step_norm (c : Cfg) (st : St) (t : Token) : okPart (step c st (norm t)) = okPart (step c st t) := by
+  simp only [step, resolveAmb_norm]
+  split
+  · exact stepOperand_norm _ _ _
+  · exact stepAfter_norm _ _ _ _
+
+theorem run_norm (c : Cfg) : ∀ (toks : List Token) (st : St), okPart (run c st (toks.map norm)) = okPart (run c st toks)
+  | [], st => rfl
+  | t :: ts, st => by
+    have h := step_norm c st t
+    simp only [List.map_cons, run]
+    cases h1 : step c st (norm t) <;> cases h2 : step c st t <;> simp [h1, h2, okPart] at h ⊢
+    · subst h; exact run_norm c ts _
+
+theorem parse_norm (c : Cfg) (toks : List Token) : okPart (parse c (toks.map norm)) = okPart (parse c toks) := by
+  have h := run_norm c toks {}
+  simp only [parse]
+  cases h1 : run c {} (toks.map norm) <;> cases h2 : run c {} toks <;> simp [h1, h2, okPart] at h ⊢
+  · subst h; rfl
+
+/-- **completeness for real token lists**: if a `WF` tree spells the token list (positions aside), the
+parser returns that tree -/
+theorem parse_complete (c : Cfg) (hna : NoAmb c) (toks : List Token) (t : Ast) (h : WF c t)
+    (hy : yield c t = toks.map norm) : parse c toks = .ok t := by
+  have h1 := parse_roundtrip c hna t h
+  have h2 := parse_norm c toks
+  rw [← hy, h1] at h2
+  cases h3 : parse c toks with
+  | ok t' => rw [h3] at h2; simp [okPart] at h2; rw [h2]
+  | error e => rw [h3] at h2; simp [okPart] at h2
+
+/-- **C02, tree layer, summary**: for a table without suffix/binary symbols the parser succeeds on a
+token list exactly when a `WF` tree spells it, and then returns that (unique) tree -/
+theorem parse_iff (c : Cfg) (hna : NoAmb c) (toks : List Token) (t : Ast) :
+    parse c toks = .ok t ↔ WF c t ∧ yield c t = toks.map norm :=
+  ⟨parse_sound c toks t, fun ⟨h, hy⟩ => parse_complete c hna toks t h hy⟩
+
 /-! ### side condition `NoAmb`, executable; non-vacuity -/
 
 theorem mem_of_dget {α} : ∀ (d : Dict α) (k : Str) (v : α), d.get? k = some v → (k, v) ∈ d
